@@ -24,6 +24,7 @@ type callee struct {
 	args     []ssa.Value // receiver first
 	bindings map[string]ssa.Value
 	invoke   *ssa.CallCommon
+	fn       *ssa.Function // static callee, if any
 }
 
 func ifaceKey(t types.Type, method string) string {
@@ -61,6 +62,7 @@ func (g *Gen) resolveCallee(c *ssa.CallCommon) *callee {
 		ce.pkg = fn.Pkg.Pkg
 	} else if fn := c.StaticCallee(); fn != nil {
 		ce.key = FuncKey(fn)
+		ce.fn = fn
 		if fn.Pkg != nil {
 			ce.pkg = fn.Pkg.Pkg
 		} else if fn.Object() != nil && fn.Object().Pkg() != nil {
@@ -159,7 +161,12 @@ func (g *Gen) call(in ssa.Instruction, c *ssa.CallCommon, res ssa.Value) {
 		return
 	}
 	ce := g.resolveCallee(c)
-	results := g.applyContract(ce, in.Pos())
+	var results []string
+	if ce.spec == nil && ce.bindings == nil && g.inlinable(ce.fn) {
+		results = g.inlineCall(ce, in.Pos())
+	} else {
+		results = g.applyContract(ce, in.Pos())
+	}
 	if res == nil {
 		return
 	}
@@ -391,6 +398,31 @@ func (g *Gen) builtin(in ssa.Instruction, b *ssa.Builtin, c *ssa.CallCommon, res
 			vsrt := g.L.CellSort(mt.Elem())
 			oldLen := app("sl.len", app("select", app("select", g.mapVal(g.cur, ks, vsrt), pObj(m)), k))
 			g.setRawHeap(g.cur, "M_vlen", sIte(was, app("store", vl, pObj(m), app("-", app("select", vl, pObj(m)), oldLen)), vl))
+		}
+	case "clear":
+		if st, ok := c.Args[0].Type().Underlying().(*types.Slice); ok {
+			// clear(s): every element of s becomes the zero value
+			d := arg(0)
+			dp := app("sl.ptr", d)
+			es := g.L.Size(st.Elem())
+			reg := Region{Obj: pObj(dp), Lo: pOff(dp), Hi: g.M.ixAdd(pOff(dp), g.M.ixMulC(app("sl.len", d), es)), T: st.Elem()}
+			g.checkRegionWrite(reg, in.Pos(), "clear")
+			rs := g.L.Ranges(st.Elem())
+			if es == 1 && len(rs) == 1 {
+				sort := rs[0].Sort
+				ht := g.heapTerm(g.cur, sort)
+				dstArr := app("select", ht, pObj(dp))
+				inner := g.freshConst("clr", fmt.Sprintf("(Array %s %s)", g.M.IX(), sort))
+				i := "i!q"
+				inRange := sAnd(g.M.ixLe(pOff(dp), i), g.M.ixLt(i, g.M.ixAdd(pOff(dp), app("sl.len", d))))
+				g.assume(fmt.Sprintf("(forall ((%s %s)) (! (= (select %s %s) (ite %s %s (select %s %s))) :pattern ((select %s %s))))",
+					i, g.M.IX(), inner, i, inRange, g.L.Zero(sort), dstArr, i, inner, i))
+				g.setHeap(g.cur, sort, app("store", ht, pObj(dp), inner))
+			} else {
+				g.havocRegion(g.cur, reg)
+			}
+		} else {
+			g.unsupported("builtin clear on a map")
 		}
 	case "print", "println":
 	case "recover":
@@ -669,7 +701,10 @@ func (g *Gen) callLoopEffect(in ssa.CallInstruction, l *Loop) (regs []Region, al
 	c := in.Common()
 	if b, ok := c.Value.(*ssa.Builtin); ok && !c.IsInvoke() {
 		switch b.Name() {
-		case "copy":
+		case "copy", "clear":
+			if _, isSl := c.Args[0].Type().Underlying().(*types.Slice); !isSl {
+				return nil, true
+			}
 			r, fresh, ok := g.invSlice(c.Args[0], l)
 			if ok && fresh {
 				return nil, false
